@@ -99,6 +99,12 @@ CHECKS = {
   "Every ordered tuple of 1..3 secret versions over 9 validity windows (ties under every id assignment) x 20 clock instants (every bound and +/-1 ns, +/-1 s) x selection {default, newest_valid, oldest_valid} x loadable/unloadable values x request shapes (paths needing escaping, methods, bodies incl. NUL, custom header names) is signed by the real deliverer: the request seen by the transport carries timestamp = unix seconds and signature = HMAC-SHA256 over METHOD, escaped path, timestamp, body hash under the version the rule selects among versions valid at signing time (from inclusive, until exclusive); nothing is sent when no version is valid or the secret cannot be loaded. Inbound: a request signed with version v at timestamp t is accepted iff from(v) <= t < until(v), for every version x boundary instant.",
   "Whole-second window bounds; tie direction by id is undocumented (either fixed end accepted); file:/vault: refs share the env: path.",
   "DESIGN.md §6 C17"),
+
+ "C08": ("enum", "exploration",
+  "bounded-exhaustive enumeration of single-edit mutations of valid signed requests x clock offsets x secret-window configurations, Basic credential variants and every forward-auth answer through the real ingress handler in virtual time, against an independent verifier (one-directional soundness + completeness probes)",
+  "For six HMAC configurations (inline / versioned secret_refs with overlapping windows / both, default and custom header names) x every window end-point +/-1 s as signed timestamp x every configured signer x clock offsets {-tol-1 ns, -tol, 0, +tol, +tol+1 ns}: every single-bit flip and hex substitution of the signature, every prefix/suffix, structural and encoding variants, every single-character edit of the timestamp, every single-bit flip of the body, path/method variants and missing/empty/blank/renamed/duplicated headers; Basic: every prefix/suffix/case/bit-flip/base64 variant for two users; forward auth: every status 100..599, transport errors and a hang until the timeout. A 202 must be accepted by the independent verifier; everything else must get 401/403/503 as the statement assigns them and leave Stats and the listing identical; the unmodified request must be accepted.",
+  "413/429 paths in front of auth are not provoked; requests net/http itself refuses are not evaluated; memory backend.",
+  "DESIGN.md §6 C08"),
 }
 
 NOT_YET = "check not built yet (work in progress, see DESIGN.md §6)"
